@@ -158,7 +158,7 @@ func runBad(c *Ctx, prop string) {
 			}
 			c.Res.Count("skipped:class-not-applicable:unknown-field-by-schema-change")
 		}
-		if lay == layGoInterp && i%2 == 0 {
+		if (lay == layGoInterp || lay == laySameBase) && i%2 == 0 {
 			layoutEscapeOnly = f.Def // only the faulty definition's literal has the escaped prefix
 		}
 		files, where := layout(mut, lay, c.Rng("lay", i))
